@@ -14,6 +14,8 @@
 //	table   (searcher) truthiness and conversion tables of docs/runtime-types.md, hard-coded here
 //	copy    (searcher) copy == original (values without error/function/NaN), copy is mutable, copy
 //	        then mutate original leaves the copy unchanged and vice versa
+//	copyheap  all values rebuilt and copied in the heap model of C09 (`(copyheap x op…)`, copyheap.go): shapes,
+//	        freshness and separation of the model's copy vs the real Copy and its pointer sets
 package main
 
 import (
@@ -1435,6 +1437,7 @@ func main() {
 	sc := newScripts()
 	runPairs(u, sc)
 	runSingles(u, sc)
+	runCopyHeap(u)
 	probes()
 	lib.RunProbes(res, "C10", f.Known)
 	res.Write(f.Out)
